@@ -7,6 +7,7 @@ import (
 	"os"
 	"os/exec"
 	"path/filepath"
+	"runtime"
 	"strconv"
 	"strings"
 	"testing"
@@ -23,7 +24,7 @@ import (
 // C10 — creating an evaluator is total on arbitrary bytes: evaluator xor error, no panic.
 
 const c10Rule = "(a) every sequence of <= k tokens (k=3 quick, 4 thorough) with and without blanks; (b) rapid byte strings and mutated renderings (token and byte insert/delete/" +
-	"swap/duplicate, truncation); (c) hostile constants (invalid UTF-8, NUL, lone quotes, bad escapes, nesting up to 40, 64 KiB inputs); (d) thorough: native go fuzzing of " +
+	"swap/duplicate, truncation); (c) hostile constants, also under GOMAXPROCS 1 and 2 (invalid UTF-8, NUL, lone quotes, bad escapes, nesting up to 40, 64 KiB inputs); (d) thorough: native go fuzzing of " +
 	"FuzzCreate seeded with the corpus; every call under WithMaxExpressions(2^18) (budget hits are counted as inconclusive cases, not failures); invariant: no panic in " +
 	"CreateEvaluator / CreateFilter / grammar.Parse, exactly one of (result, error) non-nil (nil Filter only for \"\"), Parse accepts iff CreateEvaluator accepts and then " +
 	"returns a non-nil Expression, a returned evaluator evaluates a battery of data and its tree dumps without panic; non-trivial = rejected by an explicit error production / " +
@@ -198,6 +199,16 @@ func TestC10_Hostile(t *testing.T) {
 				ins = append(ins, string(b))
 			}
 		}
+	}
+	// the same constants once more on ONE processor (a 1-CPU container), and on two
+	for _, procs := range []int{1, 2} {
+		old := runtime.GOMAXPROCS(procs)
+		for _, s := range ins {
+			if len(s) < 2000 {
+				c10Check(t, "TestC10_Hostile", []byte(s))
+			}
+		}
+		runtime.GOMAXPROCS(old)
 	}
 	for _, s := range ins {
 		acc, hit, ex := c10Check(t, "TestC10_Hostile", []byte(s))
